@@ -1,6 +1,8 @@
 (* Correspondence cases for C14: the harness writes (input, observed implementation output);
    [mismatches14] returns the indices where the model disagrees. *)
-From KV Require Export Yaml.Fns Yaml.FieldSpec Yaml.Elems Yaml.NodeApi Yaml.Annot.
+From KV Require Export Yaml.Fns Yaml.FieldSpec.
+(* not re-exported: Corr.C14 is imported by other properties' files for oclass_eqb / mism_from *)
+From KV Require Import Yaml.Elems Yaml.NodeApi Yaml.Annot.
 
 Inductive op14 :=
 | OLookup
